@@ -509,6 +509,58 @@ def l2_conform(ck, seed, n):
                        'replayed on the real threaded Server under exactly its schedule (hub in '
                        'scripted mode); final queue, counter, flags, table, events, deliveries and '
                        'which tasks returned must equal the model\'s', nrep, nsame)
+    # ... and of EioQueueFineWsSim (websocket session); behaviours that end with disconnect(sid)
+    # waiting in join() for ever reproduce finding F6b from the model's own schedules
+    wsc = dict(l2_consts(4, MaxMsg=9, Cap=16, SerialPolls='FALSE', Timeouts='FALSE'),
+               Kinds='{"send", "disc"}', WsEnv='{"close", "gone"}')
+    cfg = tlc.cfg_text(spec='SimSpec', constants=wsc, constraints=['EmitSchedule'])
+    r = tlc.run('EioQueueFineWsSim', cfg, simulate='num=%d' % (n * 2), depth=90, workers=1,
+                seed=seed + 7, timeout=600, constants=wsc)
+    if r.error:
+        raise MachineryError('EioQueueFineWsSim simulation failed: %s\n%s' % (r.error, r.out[-1500:]))
+    ck.add_tlc(r, 'simulation of EioQueueFineWsSim: behaviours run until nothing can move')
+    seen, i, txt = {}, 0, r.out
+    while True:
+        i = txt.find('<< "SCHEDULE"', i)
+        if i < 0:
+            break
+        j = _balanced(txt, i)
+        key, i = txt[i:j], j
+        if key not in seen:
+            seen[key] = tlc.parse_tla_value(key)
+    nrep = nsame = nstuck = 0
+    opn, _ = load_known_findings(ck.pid)
+    f6b = [e for e in opn if e['id'] == 'F6b']
+    for key, vv in seen.items():
+        sched, mq, munf, mclosed, mclosing, mintable, mev, mdeliv, msent, mpc = vv[1:11]
+        nrep += 1
+        try:
+            f = l2.replay_ws_schedule(sched)
+        except RuntimeError as e:
+            ck.violation('the real Server cannot follow a TLC schedule of EioQueueFineWs: %s' % e,
+                         {'schedule': sched, 'ws': True, 'kind': 'l2-schedule'})
+            continue
+        pcs = mpc if isinstance(mpc, list) else [mpc[k] for k in sorted(mpc)]
+        same = (f['q'], f['unf'], f['closed'], f['closing'], f['intable'], f['ev'], f['deliv'],
+                f['sent']) == (mq, munf, mclosed, mclosing, mintable, mev, mdeliv, msent) and \
+            all(pcs[k] == 'idle' or f['done'].get(k + 1, False) == (pcs[k] == 'done')
+                for k in range(len(pcs)))
+        nsame += bool(same)
+        if not same and nrep - nsame <= 3:
+            ck.violation('under a TLC schedule the real Server (websocket session) ends in %r, '
+                         'EioQueueFineWs in %r' % (f, [mq, munf, mclosed, mclosing, mintable, mev,
+                                                       mdeliv, msent, pcs]),
+                         {'schedule': sched, 'ws': True, 'kind': 'l2-schedule'})
+        if same and any(x == 'd_join' for x in pcs):
+            nstuck += 1
+            if f6b:
+                ck.known_finding('F6b', f6b[0]['what'])
+    if nrep < 20:
+        raise MachineryError('vacuity: only %d behaviours came out of the L2 ws simulation' % nrep)
+    ck.add_conformance('spec -> code at L2, websocket session: behaviours of EioQueueFineWs generated '
+                       'by TLC, each replayed on the real threaded Server under exactly its schedule; '
+                       'the outcome must equal that of the model', nrep, nsame,
+                       behaviours_with_disconnect_stuck_in_join=nstuck)
     # the same for one websocket session (reader + writer threads)
     wtraces, wfacts = [], []
     for i, sc in enumerate(l2.ws_scripts(seed + 37, n)):
